@@ -152,7 +152,8 @@ contract(
                               f"{MM} <= result[1][q][1] - result[1][q][0] and result[1][q][1] - result[1][q][0] <= {MX})",
         "point_lengths": "forall(range(len(result[2])), lambda q: 0 <= result[2][q][0] and result[2][q][1] == result[2][q][0] + 1 and result[2][q][1] <= n)",
         "disjoint": "forall(range(len(result[1])), range(len(result[2])), lambda q, r: result[1][q][1] <= result[2][r][0] or result[2][r][1] <= result[1][q][0]) and "
-                    "forall(range(len(result[1])), range(len(result[1])), lambda q, r: implies(q < r, result[1][r][1] <= result[1][q][0]))",
+                    "forall(range(len(result[1])), range(len(result[1])), lambda q, r: implies(q < r, result[1][r][1] <= result[1][q][0])) and "
+                    "forall(range(len(result[2])), range(len(result[2])), lambda q, r: implies(q < r, result[2][r][1] <= result[2][q][0]))",
     },
     invariants={
         "loop#1": {
@@ -210,4 +211,61 @@ contract(
         "collective_anomalies, point_anomalies = get_anomalies(*": {"get_anomalies": {"m": MM, "M": MX}},
     },
     props=["C03", "C04"],
+)
+
+# ------------------------------------------------------------------------------------------------ find_affected_components (C16)
+_V = lambda c: f"SC2(saving.ghost_tok, start, end, {c})"
+contract(
+    target=f"{MV}::find_affected_components",
+    params={"saving": "obj:~BaseSaving", "saving._is_fitted": "bool=True", "saving.min_size": "int", "saving.ghost_tok": "int", "saving.ghost_n": "int",
+            "saving.ghost_q": "int", "anomalies": "list[(int,int)]", "alpha": "real", "betas": "real[q]"},
+    requires=["saving.ghost_q == q", "q >= 1", "saving.min_size >= 1",
+              "forall(range(len(anomalies)), lambda a: 0 <= anomalies[a][0] and anomalies[a][1] <= saving.ghost_n and "
+              "anomalies[a][1] - anomalies[a][0] >= saving.min_size)"],
+    returns="list[(int,int,int[])]",
+    ensures={
+        "same_intervals": "len(result) == len(anomalies) and forall(range(len(anomalies)), lambda a: result[a][0] == anomalies[a][0] and result[a][1] == anomalies[a][1])",
+        # non-empty list of distinct valid column positions (C04)
+        "columns_valid_distinct": "forall(range(len(result)), lambda a: 1 <= len(result[a][2]) and len(result[a][2]) <= q and "
+                                  "forall(range(len(result[a][2])), lambda r: 0 <= result[a][2][r] and result[a][2][r] < q) and "
+                                  "forall(range(len(result[a][2])), range(len(result[a][2])), lambda r, r2: implies(r != r2, result[a][2][r] != result[a][2][r2])))",
+        # the listed columns are the k largest savings in decreasing order (C16)
+        "top_k_in_order": "forall(range(len(result)), lambda a: forall(range(len(result[a][2])), lambda r: "
+                          "SC2(saving.ghost_tok, result[a][0], result[a][1], result[a][2][r]) == SORTV(saving.ghost_tok, result[a][0], result[a][1], r)))",
+        # ... and k maximises the cumulative saving minus the penalty for k components (first maximiser)
+        "argmax_k": "forall(range(len(result)), lambda a: forall(range(q), lambda k: "
+                    "CUMPEN(saving.ghost_tok, result[a][0], result[a][1], alpha, arrid(betas), k) <= "
+                    "CUMPEN(saving.ghost_tok, result[a][0], result[a][1], alpha, arrid(betas), len(result[a][2]) - 1)) and "
+                    "forall(range(len(result[a][2]) - 1), lambda k: "
+                    "CUMPEN(saving.ghost_tok, result[a][0], result[a][1], alpha, arrid(betas), k) < "
+                    "CUMPEN(saving.ghost_tok, result[a][0], result[a][1], alpha, arrid(betas), len(result[a][2]) - 1)))",
+    },
+    invariants={"loop#1": {
+        "len": "len(new_anomalies) == _k",
+        "same": "forall(range(_k), lambda a: new_anomalies[a][0] == anomalies[a][0] and new_anomalies[a][1] == anomalies[a][1])",
+        "cols": "forall(range(_k), lambda a: 1 <= len(new_anomalies[a][2]) and len(new_anomalies[a][2]) <= q and "
+                "forall(range(len(new_anomalies[a][2])), lambda r: 0 <= new_anomalies[a][2][r] and new_anomalies[a][2][r] < q) and "
+                "forall(range(len(new_anomalies[a][2])), range(len(new_anomalies[a][2])), lambda r, r2: implies(r != r2, new_anomalies[a][2][r] != new_anomalies[a][2][r2])))",
+        "topk": "forall(range(_k), lambda a: forall(range(len(new_anomalies[a][2])), lambda r: "
+                "SC2(saving.ghost_tok, new_anomalies[a][0], new_anomalies[a][1], new_anomalies[a][2][r]) == SORTV(saving.ghost_tok, new_anomalies[a][0], new_anomalies[a][1], r)))",
+        "argmax": "forall(range(_k), lambda a: forall(range(q), lambda k: "
+                  "CUMPEN(saving.ghost_tok, new_anomalies[a][0], new_anomalies[a][1], alpha, arrid(betas), k) <= "
+                  "CUMPEN(saving.ghost_tok, new_anomalies[a][0], new_anomalies[a][1], alpha, arrid(betas), len(new_anomalies[a][2]) - 1)) and "
+                  "forall(range(len(new_anomalies[a][2]) - 1), lambda k: "
+                  "CUMPEN(saving.ghost_tok, new_anomalies[a][0], new_anomalies[a][1], alpha, arrid(betas), k) < "
+                  "CUMPEN(saving.ghost_tok, new_anomalies[a][0], new_anomalies[a][1], alpha, arrid(betas), len(new_anomalies[a][2]) - 1)))",
+    }},
+    loop_vars={"loop#1": {"new_anomalies": "list[(int,int,int[])]"}},
+    ghost=[
+        ("after:saving_order = *",
+         "assert using(AX_sorted_unique(saving.ghost_tok, start, end, saving_order, q), "
+         "forall(range(q), lambda r: SC2(saving.ghost_tok, start, end, saving_order[r]) == SORTV(saving.ghost_tok, start, end, r)))"),
+        ("after:penalised_saving = *",
+         "assume(CUMPEN_DEF(saving.ghost_tok, start, end, alpha, betas, q))\n"
+         "assert forall(range(q), lambda k: using(L_cumsum_tel(lam('real', q, lambda i: penalised_saving[i] + alpha), "
+         "lam('real', q, lambda i: saving_values[saving_order[i]] - betas[i]), "
+         "lam('real', q + 1, lambda i: ite(i == 0, 0, CUMPEN(saving.ghost_tok, start, end, alpha, arrid(betas), i - 1) + alpha))), "
+         "penalised_saving[k] == CUMPEN(saving.ghost_tok, start, end, alpha, arrid(betas), k)))"),
+    ],
+    props=["C16", "C04", "C12"],
 )
